@@ -41,3 +41,16 @@ for log in sys.argv[1:]:
         meta["static_check"] = {"exit": int(f["check_exit"]), "first_reports": [v.strip() for v in viol.split(";") if v.strip()][:3]}
         json.dump(meta, open(os.path.join(dst, "meta.json"), "w"), indent=1)
         print("kept", name)
+
+# INDEX.md
+rows = []
+for d in sorted(glob.glob(os.path.join(ROOT, "*", "meta.json"))):
+    m = json.load(open(d))
+    name = os.path.basename(os.path.dirname(d))
+    rep = "; ".join(x.split(":")[0].replace("violated ", "").replace("undecided ", "").strip() for x in m.get("static_check", {}).get("first_reports", []))
+    rows.append((name, m.get("property", "?"), (m.get("summary") or m.get("breaks") or "").replace("|", "/").replace("\n", " ")[:170], (m.get("needs") or "").replace("|", "/").replace("\n", " ")[:120], "yes" if m.get("static_check", {}).get("exit") == 1 else "NO", rep[:150]))
+with open(os.path.join(ROOT, "INDEX.md"), "w") as f:
+    f.write("# Seeded changes (each breaks one property, compiles, passes the existing suite)\n\n| name | property | change | needs to manifest | flagged by its check | first obligations reported |\n|---|---|---|---|---|---|\n")
+    for r in rows:
+        f.write("| %s | %s | %s | %s | %s | %s |\n" % r)
+print(len(rows), "seeded entries")
